@@ -154,6 +154,11 @@ func (m *PackageDependencyManager) Resolve(ctx context.Context, meta pkgmetav1.P
 			if err = m.client.Get(ctx, types.NamespacedName{Name: lockName}, lock); err != nil {
 				return found, installed, invalid, err
 			}
+			// the graph must be in sync with the refreshed lock too, otherwise
+			// the removed package still counts as an installed dependency
+			if implied, err = d.Init(v1beta1.ToNodes(lock.Packages...)); err != nil {
+				return found, installed, invalid, errors.Wrap(err, errInitDAG)
+			}
 			break
 		}
 	}
